@@ -277,6 +277,48 @@ def check_getters(rep, ctx):
         rep.functions_encoded.append(w)
 
 
+def check_mode_getters(rep, ctx):
+    """KeyStatus::get_wire_server_mode / get_imds_mode (version 2.0 branch): the value loop_poll compares with "disabled" is the
+    LOWER-CASED mode of the endpoint's own rule item, or the literal "disabled" when there is none (so `Disabled` switches interception off
+    like `disabled`). get_hostga_mode delegates to the WireServer mode (stated short-term design)."""
+    from strterm import LOWER
+    mode_idx = ctx.field("AuthorizationItem", "mode")
+    for getter, field, rules_getter in (("get_wire_server_mode", "wireserver", "get_wireserver_rules"), ("get_imds_mode", "imds", "get_imds_rules")):
+        try:
+            w = ctx.method("KeyStatus", getter)
+        except Inconclusive:
+            continue
+        eng = ctx.engine()
+        n2 = 0
+        for i, r in enumerate(eng.explore(w)):
+            if r.status != "return":
+                continue
+            ver = [e for e in r.events if e.kind == "streq" and any(isinstance(origin(x), StrV) and origin(x).e.as_string() == "2.0" for x in e.rargs)]
+            if not ver or not implied(r, ver[0].extra):
+                continue          # version 1 documents: the mode is derived from secureChannelState (two constants)
+            n2 += 1
+            v = origin(r.ret)
+            ok, detail = False, repr(r.ret)[:120]
+            if isinstance(v, StrV):
+                ok = v.e.as_string() == "disabled"
+            else:
+                lows = [e for e in r.events if e.kind == "call" and LOWER.search(e.callee) and same_origin(e.ret, v)]
+                if lows:
+                    src = origin(lows[0].rargs[0])
+                    chain, cur = [], src
+                    while isinstance(cur, Sym) and isinstance(cur.tag, tuple) and cur.tag[0] == "part":
+                        chain.append(cur.tag[2]); cur = origin(cur.tag[1])
+                    own = ("f", ctx.field("AuthorizationRules", field)) in chain or (isinstance(cur, Sym) and cur.tag[0] == "ret" and cur.tag[1].endswith(rules_getter))
+                    ok = ("f", mode_idx) in chain and own
+                    detail = "lowercase of %r" % (src,)
+                else:
+                    detail = "not lower-cased: %r" % (v,)
+            rep.add(Query("KeyStatus::%s path %d (version 2.0): returns \"disabled\" or the lower-cased mode of the %s item" % (getter, i, field), "holds" if ok else "violated", detail, 0, "mirsym+z3",
+                          key="C09.mode-getter:" + getter, reproduced=None))
+        rep.add(Query("witness: %s has version 2.0 paths" % getter, "witness-hit" if n2 else "witness-missed", "%d" % n2, 0, "mirsym"))
+        rep.functions_encoded.append(w)
+
+
 def check_state_string(rep, ctx):
     """KeyStatus::get_secure_channel_state (v2.0): the WireServer and IMDS segments of the state string are decided by the
     mode of their OWN rule item, so a change of either mode changes the reported state (which is what triggers the policy update)."""
@@ -355,6 +397,7 @@ def check(rep, tier, seed):
     check_state_section(rep, ctx)
     check_wrappers(rep, ctx)
     check_getters(rep, ctx)
+    check_mode_getters(rep, ctx)
     check_state_string(rep, ctx)
     rep.assumptions += ["the host's rule id identifies the rule content (rules are re-read only when the id changes)", "actor round-trips succeed in the convergence claim (a failed internal send is logged and retried by a later change)",
                         "Future::poll returns Ready"]
